@@ -69,8 +69,8 @@ Proof.
   - unfold logical_to_rgb. destruct (hsv_to_rgb _ _ _) as [[r g] b]. reflexivity.
   - unfold raw_to_logical, py_max; simpl. change zero with 0%float in H. rewrite H. reflexivity.
   - unfold raw_to_rgb. destruct (hsv_to_rgb _ _ _) as [[r g] b]. reflexivity.
-  - unfold rgb_to_logical. destruct (rgb_to_hsv _ _ _) as [[h s] v]. reflexivity.
-  - unfold rgb_to_raw. destruct (rgb_to_hsv _ _ _) as [[h s] v]. reflexivity.
+  - unfold rgb_to_logical. destruct (guarded_rgb_to_hsv _ _ _) as [[h s] v]. reflexivity.
+  - unfold rgb_to_raw. destruct (guarded_rgb_to_hsv _ _ _) as [[h s] v]. reflexivity.
 Qed.
 
 Theorem switch_keeps_kelvin : forall (r : regs float) to,
